@@ -334,13 +334,20 @@ fn unknown_admin_probe(rep: &mut Report, u: &mut U, label: &str, dir: &str, know
                     let _ = OperatableClient::new(env, &a).try_transfer_operatorship(&n);
                 });
                 u.skip_events();
-                let handed = roles(u);
+                // only the roles that the ordinary transfer moved are judged from here on: a role the
+                // pinned interface cannot hand over (the gas collector, a minter, an operator's
+                // membership) is still held by whoever made the first call, whose nomination stands
+                let moved = |u: &mut U| -> String {
+                    let a = addr.clone();
+                    u.query(move |env| format!("owner={:?} operator={:?}", OwnableClient::new(env, &a).try_owner(), OperatableClient::new(env, &a).try_operator()))
+                };
+                let handed = moved(u);
                 let mut changed: Option<(String, String)> = None;
                 'later: for auth in [Auth::AllBy(stranger.clone()), Auth::Nobody] {
                     for name2 in &names {
                         for t2 in &tuples {
                             if u.try_unknown(addr, std::slice::from_ref(name2), std::slice::from_ref(t2), &auth) > 0 {
-                                let after = roles(u);
+                                let after = moved(u);
                                 if after != handed {
                                     changed = Some((format!("{} after the holder's {}", name2, name), after));
                                     break 'later;
